@@ -605,6 +605,8 @@ class SVG:
         raise ValueError(f"No free id for {template}")
 
     def _traverse(self, next_fn, append_fn, resolve_clip_paths=True):
+        # the walk reads (and, resolving clip paths, edits) the tree: sync it first
+        self._update_etree()
         frontier = [
             SVGTraverseContext(
                 0,
